@@ -172,6 +172,7 @@ def run(ctx):
             param_rows[(ht[0],)] = (r, arm)
         elif ht[0] == "Let":
             pass
+    table_driven_rows(ctx, c, f, reader)
     ctx.floor("R14.1", "operator rows of parse_pattern", len(reader), 33)
     for tok, (term, kname, arm) in sorted(reader.items()):
         want = ORACLE.get(tok)
@@ -195,11 +196,85 @@ def run(ctx):
     lexer_slices(ctx)
 
 
+def table_driven_rows(ctx, c, f, reader):
+    """n-ary operators dispatched through two tables instead of one arm each: a look-up `symbol -> (operation, .., arity class)` in parse_pattern
+    and an `operation -> builder term` match in bin_op.  Their composition gives the same rows (operator -> term over (A, B), arity class)."""
+    lookup = None
+    for n in walk(f["body"]):
+        if n.get("k") == "match" and n.get("src", "match") == "match":
+            lits = [alt for arm in n["arms"] for alt in pat_alts(arm["pat"]) if alt.get("k") == "plit" and alt.get("lk") == "bytestr"]
+            if len(lits) >= 10 and (lookup is None or len(lits) > lookup[1]):
+                lookup = (n, len(lits))
+    if lookup is None:
+        return
+    calls = [n for n in walk(f["body"]) if n.get("k") == "call" and callee(n) == Pm + "bin_op"]
+    g = ctx.fn_opt("patronus", Pm + "bin_op")
+    if not calls or g is None:
+        return
+    # bin_op's operation table: a match on a local whose arms are builder terms over the two operands of the fold
+    gx = Index(g["body"])
+    folds = [n for n in gx.nodes if n.get("k") == "mcall" and n["name"] in ("fold", "reduce") and n["args"] and resolve(n["args"][-1]).get("k") == "closure" and len(resolve(n["args"][-1])["params"]) == 2]
+    if len(folds) != 1:
+        return
+    cl = resolve(folds[0]["args"][-1])
+    pa, pb = [pat_bindings(p_) for p_ in cl["params"]]
+    if len(pa) != 1 or len(pb) != 1:
+        return
+    acc_id, b_id = pa[0][1], pb[0][1]
+    optab = None
+    for n in walk(cl["body"]):
+        if n.get("k") == "match" and n.get("src", "match") == "match" and len(n["arms"]) >= 10 and all(alt.get("k") in ("pvariant", "pconst", "ppath") for arm in n["arms"] for alt in pat_alts(arm["pat"])):
+            optab = n
+    if optab is None:
+        return
+
+    def leaf(n, e_):
+        if n.get("k") == "local" and canon(n["id"]) == canon(acc_id):
+            return A
+        if n.get("k") == "local" and canon(n["id"]) == canon(b_id):
+            return B
+        return None
+    gdefs = local_defs(g)
+    terms = {}
+    for arm in optab["arms"]:
+        for alt in pat_alts(arm["pat"]):
+            ex = semterm.Extractor(gdefs, leaf)
+            try:
+                terms[alt.get("path")] = ex.ev(arm["body"], {})
+            except Opaque as e:
+                terms[alt.get("path")] = ("?opaque", e.why)
+    for arm in lookup[0]["arms"]:
+        for alt in pat_alts(arm["pat"]):
+            if not (alt.get("k") == "plit" and alt.get("lk") == "bytestr"):
+                continue
+            tok = alt["v"]
+            leafv = peel(psanorm.tail_value(arm["body"]))
+            comps = leafv["es"] if leafv.get("k") == "tuple" else [leafv]
+            opv = kname = None
+            for x in comps:
+                x = peel(x)
+                if x.get("k") == "def" and str(x.get("dk", "")).startswith("ctor"):
+                    if "::NAry::" in x["path"]:
+                        kname = x["path"].split("::")[-1]
+                    elif x["path"] in terms:
+                        opv = x["path"]
+            if opv is None or kname is None:
+                ctx.violation("R14.1", "row:%s" % tok, arm.get("sp"), "UNRECOGNISED table row for `%s`: %s" % (tok, show(leafv)[:80]))
+                continue
+            t = terms[opv]
+            if isinstance(t, tuple) and t and t[0] == "?opaque":
+                ctx.violation("R14.1", "row:%s" % tok, arm.get("sp"), "UNRECOGNISED lowering of `%s` (%s)" % (tok, t[1]))
+                continue
+            reader.setdefault(tok, (t, kname, arm))
+
+
 def binop(ctx):
     """bin_op: LeftAssoc reduces left-to-right over the arguments in order; other classes apply op(a, b) to exactly two"""
     f = ctx.fn("patronus", Pm + "bin_op")
     ix = Index(f["body"])
     defs = local_defs(f)
+    if fold_form(ctx, f, ix, defs):
+        return
     pid = param_ids(f) + [None] * 5
     p_st, p_args, p_op, p_nary = pid[0], pid[2], pid[3], pid[4]         # bin_op(st, name, args, op, n_ary)
     regions = psanorm.enum_regions(f["body"], p_nary, Pm + "NAry::")
@@ -263,6 +338,69 @@ def binop(ctx):
     ctx.inst("R14.1", "bin_op:binary-order", ok2, f["span"], "binary operators must apply op to (first argument, second argument)")
 
 
+def fold_form(ctx, f, ix, defs):
+    """the table-driven bin_op: every argument converted in order, then `rest.iter().fold(first, |acc, b| OP(acc, b))`; more than two arguments
+    are rejected unless the class is LeftAssoc, fewer than two always.  Returns True when this form was recognised (and judged)."""
+    folds = [n for n in ix.nodes if n.get("k") == "mcall" and n["name"] == "fold" and len(n["args"]) == 2 and resolve(n["args"][1]).get("k") == "closure"]
+    if len(folds) != 1:
+        return False
+    fo = folds[0]
+    P = {name: i for p in f["params"] for name, i in pat_bindings(p)}
+    p_args = next((i for p in f["params"] for name, i in pat_bindings(p) if "[" in (p.get("ty") or "") and "ParserItem" in (p.get("ty") or "")), None)
+    p_nary = next((i for p in f["params"] for name, i in pat_bindings(p) if (p.get("ty") or "").endswith("NAry")), None)
+    p_st = next((i for p in f["params"] for name, i in pat_bindings(p) if "SymbolTable" in (p.get("ty") or "")), None)
+    if p_args is None or p_nary is None:
+        return False
+    # rest / first come from split_first() of the vector of converted arguments
+    rb, rms = chain(fo["recv"])
+    rest = peel(rb)
+    first = peel(fo["args"][0])
+    src = None
+    for n in ix.nodes:
+        if n.get("k") == "let" and "init" in n and n["pat"].get("k") == "ptuple" and len(n["pat"]["subs"]) == 2:
+            b0 = pat_bindings(n["pat"]["subs"][0])
+            b1 = pat_bindings(n["pat"]["subs"][1])
+            ib, ims = chain(n["init"])
+            if len(b0) == 1 and len(b1) == 1 and [m_[0] for m_ in ims][:1] == ["split_first"] and is_local(first, b0[0][1]) and is_local(rest, b1[0][1]):
+                src = ib
+    ok_src = False
+    if src is not None and peel(src).get("k") == "local":
+        # the vector: one expr(st, arg)? per element of args, in order
+        vid = peel(src)["id"]
+        bl = psanorm.built_by_loop(ix, defs, vid)
+        if bl is not None:
+            it, pat, el, lp = bl
+            ib, ims = chain(it)
+            eb = pat_bindings(pat)
+            e0 = strip_try(resolve(strip_try(el)))
+            ok_src = is_local(ib, p_args) and [m_[0] for m_ in ims] in ([], ["iter"], ["into_iter"]) and len(eb) == 1 and e0.get("k") == "call" and callee(e0) == Pm + "expr" \
+                and is_local(e0["args"][1], eb[0][1]) and (p_st is None or is_local(e0["args"][0], p_st))
+        else:
+            el = psanorm.elementwise(ix, defs, src)
+            if el is not None:
+                ib, ims = chain(el["src"])
+                eb = pat_bindings(el["pat"])
+                e0 = strip_try(resolve(strip_try(psanorm.tail_value(el["elem"]) if el["form"] == "map" else el["elem"])))
+                ok_src = is_local(ib, p_args) and len(eb) == 1 and e0.get("k") == "call" and callee(e0) == Pm + "expr" and is_local(e0["args"][1], eb[0][1])
+    in_order = [m_[0] for m_ in rms] in (["iter"], ["iter", "copied"], ["iter", "cloned"], ["into_iter"])
+    # the closure applies the operation to (accumulator, next argument) - the operand order inside is judged row by row against the oracle
+    cl = resolve(fo["args"][1])
+    ok_cl = len(cl["params"]) == 2
+    ctx.inst("R14.1", "bin_op:left-assoc-fold", ok_src and in_order and ok_cl, f["span"], "left-associative operators must be folded left to right over the arguments in order")
+    # classes other than LeftAssoc: exactly two arguments, i.e. more than two are rejected before the fold
+    guards = []
+    for cnd, pol in psanorm.path_conditions(ix, fo):
+        if pol:
+            continue
+        txt = show(cnd)
+        has_nary = any(x.get("k") == "local" and canon(x["id"]) == canon(p_nary) for x in walk(resolve(cnd))) and "NAry::LeftAssoc" in txt
+        has_gt2 = any(x.get("k") == "binary" and x["op"] in (">", ">=") and peel(x["r"]).get("v") in (2, 3) for x in walk(resolve(cnd)))
+        if has_nary and has_gt2 and resolve(cnd).get("k") == "binary" and resolve(cnd)["op"] == "&&":
+            guards.append(cnd)
+    ctx.inst("R14.1", "bin_op:binary-order", ok_src and in_order and len(guards) == 1, f["span"], "binary operators must apply op to (first argument, second argument): more than two arguments must be rejected unless the operator is left-associative")
+    return True
+
+
 def roundtrip(ctx, c, t0, t1, reader, param_rows, defs):
     f = ctx.fn("patronus", c05.S + "serialize_expr")
     model = c05.extract_model(core_shadow(ctx), c, f, t0)
@@ -302,8 +440,15 @@ def roundtrip(ctx, c, t0, t1, reader, param_rows, defs):
             wb = head_token(r["elems"][2])[1][0]
             ok_bv = "Type::BV(parser::parse_width(%s)?)" % wb[0] in b
         if key[0] == "Array":
-            ps = show_pat(arm["pat"]).replace(" ", "")
-            ok_arr = ps.index("index_width") < ps.index("data_width") and "ArrayType{index_width:*index_width,data_width:*data_width}" in b
+            # `[Sym(b"Array"), PType(BV(i)), PType(BV(d))] => ArrayType { index_width: i, data_width: d }`: by position in the pattern and by field name
+            # in the struct literal (the order in which the fields are written does not matter)
+            els = r["elems"]
+            pos_b = [pat_bindings(e_) for e_ in els[1:3]] if len(els) == 3 else []
+            st = [x for x in walk(arm["body"]) if x.get("k") == "struct" and x["path"].endswith("ArrayType")]
+            ok_arr = False
+            if len(pos_b) == 2 and all(len(b_) == 1 for b_ in pos_b) and len(st) == 1:
+                fs = {f_["name"]: f_["e"] for f_ in st[0]["fields"]}
+                ok_arr = set(fs) == {"index_width", "data_width"} and is_local(fs["index_width"], pos_b[0][0][1]) and is_local(fs["data_width"], pos_b[1][0][1])
     ctx.inst("R14.2", "sort:(_ BitVec w)", ok_bv, None, "`(_ BitVec w)` must be read as Type::BV(w)")
     ctx.inst("R14.2", "sort:(Array I D)", ok_arr, None, "`(Array I D)` must be read as ArrayType{index_width: I, data_width: D} in that order")
     g = ctx.fn("patronus", Pm + "early_parse_single_token")
